@@ -95,7 +95,7 @@ def init_for(ctx: Ctx, ts: TypeSpec, dim):
     elif ts.base == "logical":
         v = rng.choice([".true.", ".false.", ".TRUE."])
     elif ts.base == "character":
-        v = rng.choice(["'abc'", '"hello"', "'a b'", "'it''s'", "\"x,y\"", "'(a=1)'"])
+        v = rng.choice(["'abc'", '"hello"', "'a b'", "'it''s'", "\"x,y\"", "'(a=1)'", '"don\'t"', "'say \"hi'", '"a!b"', "'Hello  World'", '"MiXed Case"'])
     else:
         return None
     if dim:
@@ -298,7 +298,7 @@ def gen_proc(ctx: Ctx, kinds, types, depth=0, kind=None, self_arg: Var = None, m
         if kind == "function" and p.result is not None and p.result.ts.base in ("integer", "real") and not p.result.dim:
             p.body.append(f"{p.result.name} = 0")
     if p.bind is None and depth == 0 and not self_arg and rng.random() < 0.08 and not p.prefixes:
-        p.bind = rng.choice(["", "c_" + p.name.lower()])
+        p.bind = rng.choice(["", "c_" + p.name.lower(), "C_" + p.name.capitalize()])
     p.doc = ctx.doc()
     return p
 
